@@ -54,6 +54,7 @@ enum OpCode {
     O_SRC_DEREG,     // s, a = kind, b = key index
     O_SRC_LEN,       // s
     O_TASK_RELEASE,  // a = task index: lets a latched task function finish
+    O_SRC_FIRE,      // a = kind (3 signal, 4 path, 5 pid), b = key index: makes the kernel object behind a live source ready
     // timing / throttling
     O_SLEEP,         // a = ms (top level only)
     O_SET_TB,        // s, a = rate, b = burst
@@ -69,7 +70,7 @@ static const char *const op_names[O_NCODES] = {
     "become", "unbecome", "stash", "unstash",
     "batch_size", "batch_timeout",
     "ref_evt", "drop_evt", "drop_modref", "lookup",
-    "fd_reg", "fd_dereg", "fd_write", "fd_read", "tmr_reg", "tmr_dereg", "src_reg", "src_dereg", "src_len", "task_release",
+    "fd_reg", "fd_dereg", "fd_write", "fd_read", "tmr_reg", "tmr_dereg", "src_reg", "src_dereg", "src_len", "task_release", "src_fire",
     "sleep", "set_tb", "errno", "nop",
 };
 
